@@ -263,6 +263,14 @@ func (c *c19) accessors(o opnd) {
 	if err != nil || (ref.Len() > 0 && string(gj) != string(wj)) { // how an empty resource is spelled in JSON (null / []) is nobody's business
 		c.r.FailHere("accessors|MarshalJSON differs from Attributes|"+c19kind(o.kind), map[string]any{"operand": o.desc}, "MarshalJSON = %s (%v), the attribute set marshals to %s", gj, err, wj)
 	}
+	before := canonReal(o.r)
+	kvs := o.r.Attributes()
+	for i := range kvs {
+		kvs[i] = attribute.String("scribbled-by-caller", "x")
+	}
+	if now := canonReal(o.r); now != before {
+		c.r.FailHere("accessors|Attributes hands out the resource's own storage|"+c19kind(o.kind), map[string]any{"operand": o.desc}, "writing to the slice returned by Attributes changed the resource: %s -> %s", before, now)
+	}
 	if !o.r.Equal(o.r) {
 		c.r.FailHere("accessors|resource not Equal to itself|"+c19kind(o.kind), map[string]any{"operand": o.desc}, "%s.Equal(itself) is false", o.desc)
 	}
